@@ -369,12 +369,24 @@ class FakeAioWS(NullHandler):
         if self.fut is not None and not self.fut.done():
             self.fut.set_result(None)
 
+    slow = 0
+
+    async def _maybe_blocked(self):
+        # a write to a socket whose buffer is full suspends the writing task
+        # (as aiohttp's does while it drains): other tasks run meanwhile
+        if self.slow and self.k.tape.chance(self.slow, 8, 'ws_write_blocked'):
+            self.net.fault('ws_write_blocked')
+            await asyncio.sleep(
+                (1 + self.k.tape.draw(3, 'ws_write_blocked_for')) * K.TICK)
+
     async def send_str(self, data):
+        await self._maybe_blocked()
         if self.closed or self.peer_closed:
             raise ConnectionResetError('Cannot write to closing transport')
         self.conn.send(data)
 
     async def send_bytes(self, data):
+        await self._maybe_blocked()
         if self.closed or self.peer_closed:
             raise ConnectionResetError('Cannot write to closing transport')
         self.conn.send(bytes(data))
@@ -482,6 +494,7 @@ class FakeClientSession:
             raise _real_aiohttp.ClientConnectorError(
                 _Key(), OSError(111, 'Connection refused (simulated)'))
         ws = FakeAioWS(net, type(self).cidx, loop)
+        ws.slow = getattr(type(self), 'slow_ws_write', 0)
         ws.conn = net.ws_connect(type(self).cidx, query, hdrs, handler=ws,
                                  path=path, scheme=scheme, tag='client')
         ws.conn.url = url
@@ -790,6 +803,7 @@ class AsyncClientWorld(ClientWorldBase):
             pass
         _Sess.net = net
         _Sess.cidx = idx
+        _Sess.slow_ws_write = spec.get('slow_ws_write', 0)
         self._patch(_eio_async_client, 'aiohttp', AiohttpProxy(_Sess))
         self.client = engineio.AsyncClient(
             logger=CaptureLogger(k, self.logs), handle_sigint=False,
